@@ -16,8 +16,8 @@ double sqrt(double x)
 {
     double r = nondet_double();
     __CPROVER_assume(x >= 0 ? (r >= 0 && (x == 0) == (r == 0) && (x - x == 0) == (r - r == 0)) : ISNAN(r));
-#ifdef SQRT_TIGHT /* bounded companion units only: additionally r^2 within 2^-40 of x, so that counterexamples replay with the real sqrt */
-    __CPROVER_assume(!(x >= 0 && x - x == 0) || (r * r >= x * (1 - 0x1p-40) && r * r <= x * (1 + 0x1p-40)));
+#ifdef SQRT_TIGHT /* bounded companion units only: additionally r^2 within relative 2^-51 of x (satisfied by every correctly rounded sqrt), so that counterexamples replay with the real sqrt */
+    __CPROVER_assume(!(x >= 0 && x - x == 0) || (r * r >= x * (1 - 0x1p-51) && r * r <= x * (1 + 0x1p-51)));
 #endif
     return r;
 }
@@ -271,7 +271,7 @@ void h_bell_gen(void)
 void h_bell_gen_small(void)
 {
     SMALLI(jm); SMALLI(am); SMALLI(vm); SMALLI(p0); SMALLI(p1); SMALLI(v0); SMALLI(v1);
-    ASSUME(jm >= 1 && am >= 1 && vm >= 1 && -1 <= p0 && p0 <= 1 && -2 <= p1 && p1 <= 2 && -1 <= v0 && v0 <= 1 && -1 <= v1 && v1 <= 1); /* limits 1..DS */
+    ASSUME(jm >= 1 && am >= 1 && vm >= 1 && -1 <= p0 && p0 <= 1 && -2 <= p1 && p1 <= 2); /* limits 1..DS, velocities -DS..DS (clamping is exercised) */
     a_trajbell c;
     c.t = c.tv = c.ta = c.td = c.taj = c.tdj = c.p0 = c.p1 = c.v0 = c.v1 = c.vm = c.jm = c.am = c.dm = 0;
     ASSUME(jm != 0 && am != 0 && vm != 0);
